@@ -142,10 +142,13 @@ func TestC01(t *testing.T) {
 	run(t, spec{
 		id:    "C01",
 		rule:  "rapid-generated operation scripts (write / close / drain / receive n / release picked items one by one or as a group / let time pass / v1 AddInput RemoveInput GracefulStop) on v1 and v2, plain and simplified disciplines, dividers Fair, Rate and two custom sum-preserving ones, buffered and unbuffered inputs, H constructed from the smallest accepted value upward; the script goroutine is the only consumer and counts received-minus-release-issued after every receive, draining the output completely at quiescent points without releasing; thorough adds a bounded exhaustive enumeration of short op sequences; non-trivial = in-flight reached exactly H and a later release was followed by a further delivery; distinct = distinct script JSON",
-		opts:  GenOpts{Vers: []int{1, 2}, Simple: []bool{false, false, true}, Dividers: allDiv, AddRemove: true, NoZero: false},
+		opts:  GenOpts{Vers: []int{1, 2}, Simple: []bool{false, false, true}, Dividers: allDiv, AddRemove: true, NoZero: false, V1AnyH: true},
 		check: CheckC01,
 		skip:  rejected,
-		pre:   exhaustiveC01,
+		pre: func(th bool, each func(Script, string) bool) {
+			exhaustiveC01(th, each)
+			exhaustiveAddRemove(th, each)
+		},
 		nontriv: func(s Script, tr Trace) bool {
 			if uint(tr.MaxInFlight) != s.H {
 				return false
@@ -304,7 +307,10 @@ func TestC15(t *testing.T) {
 		rule:     "priority-lab scripts with a wrapping divider that checks every call (strictly descending configured priorities, dividend <= H, v2 map non-nil) and, per fault plan, corrupts eligible call #k (k drawn 1..40, thorough: enumerated) by adding or removing 1..3 units while keeping the total non-zero; H may be below the constructor's minimum; oracle: contract of every call, v2 New returns ErrDividerBad for a creation fault and ErrHandlersQuantityTooSmall exactly when a share is zero, after a round fault no delivery beyond the items already in the output channel, Err() = ErrDividerBad, in-flight <= H, termination once everything is released; non-trivial = the fault hit a call made with items in flight; distinct = distinct script JSON",
 		opts:     GenOpts{Vers: []int{1, 2}, Simple: []bool{false, false, false, true}, Dividers: allDiv, Fault: true, AnyH: true, AddRemove: true},
 		check:    CheckC15,
-		pre:      enumerateFaults,
+		pre: func(th bool, each func(Script, string) bool) {
+			enumerateFaults(th, each)
+			exhaustiveAddRemove(th, each)
+		},
 		nontriv: func(s Script, tr Trace) bool {
 			return tr.FaultCall > 0 && tr.FaultInFlight > 0
 		},
@@ -317,7 +323,7 @@ func TestC16(t *testing.T) {
 		hangMine: true,
 		repeat:   true,
 		rule:     "v1 plain and simplified scripts with Stop() or context cancel inserted at a drawn (thorough: every) script position: before any data, mid-round, with 0..H items in flight and never released, with the output buffer full and nobody reading, producers blocked; oracle: Stop returns within 50 settle quanta of virtual time without any release (a spinning goroutine is caught by the real-time watchdog), afterwards further writes to the inputs produce no output beyond what already sat in the output channel, no Handle call is running, deliveries are an in-order duplicate-free subsequence; non-trivial = Stop/cancel issued with in-flight == H, or while the discipline was blocked on a full output, or before any delivery; distinct = distinct script JSON",
-		opts:     GenOpts{Vers: []int{1}, Simple: []bool{false, false, true}, Dividers: libDiv, StopOps: true},
+		opts:     GenOpts{Vers: []int{1}, Simple: []bool{false, false, true}, Dividers: libDiv, StopOps: true, AddRemove: true},
 		check:    CheckC16,
 		pre:      enumerateStops,
 		nontriv: func(s Script, tr Trace) bool {
